@@ -165,7 +165,12 @@ const collectionContextKey contextKey = "collection"
 // Collections created through a later API version may not have it, in which
 // case nil is returned.
 func vectorIndexParams(collection models.Collection) *models.IndexVectorVamanaParameters {
-	return collection.IndexSchema["vector"].VectorVamana
+	// Only the parameter block that matches the type is validated and used by
+	// the index, a property of another type may still carry a vamana block
+	if isv, ok := collection.IndexSchema["vector"]; ok && isv.Type == models.IndexTypeVectorVamana {
+		return isv.VectorVamana
+	}
+	return nil
 }
 
 const errNotV1Collection = "collection has no vamana index named vector, it cannot be used with the v1 API"
